@@ -214,7 +214,7 @@ def big_docs(tier, rnd):
     docs = []
     eols = ['', '\n', '\r\n', '\r']
     pads = range(0, 17) if tier == 'quick' else range(0, 34)
-    nseg = 640 if tier == 'quick' else 1300      # ~ 9 KiB / 18 KiB: one / two refills
+    nseg = 470 if tier == 'quick' else 1300      # ~ 9 KiB / 18 KiB: one / two refills
     for ti, triple in enumerate(TRIPLES[:4]):
         st, et, ct = triple
         for ei, eol in enumerate(eols):
